@@ -250,6 +250,42 @@ def rebuild_over(toks, t, which):
     return rec(t)
 
 
+from depccg.cat import Functor as _Functor
+
+
+def deep_probe(which):
+    """labels the rule functions return for categories DEEPER than anything the lexicon holds (derived categories accumulate arguments): functors with 1..7 arguments
+    combined with a modifier on either side, all slash directions.  Whatever node the grammar licenses here the parser can return, so it must render (C19)."""
+    G = T.en if which == 'en' else T.ja
+    if which == 'en':
+        s_, np_ = Category.parse('S[dcl]'), Category.parse('NP')
+        mods = [Category.parse('S/S'), Category.parse('S\\S'), Category.parse('S[dcl]/S[dcl]'), Category.parse('S[dcl]\\S[dcl]')]
+    else:
+        s_, np_ = Category.parse('S[mod=nm,form=base,fin=f]'), Category.parse('NP[case=ga,mod=nm,fin=f]')
+        mods = [Category.parse('S[mod=nm,form=base,fin=f]/S[mod=nm,form=base,fin=f]'), Category.parse('S[mod=nm,form=base,fin=f]\\S[mod=nm,form=base,fin=f]'),
+                Category.parse('S[mod=X1,form=X2,fin=X3]/S[mod=X1,form=X2,fin=X3]'), Category.parse('S[mod=X1,form=X2,fin=X3]\\S[mod=X1,form=X2,fin=X3]')]
+    seen_labels = set()
+    for slash in ('\\', '/'):
+        deep = s_
+        for k in range(1, 8):
+            deep = _Functor(deep, slash, np_)
+            for m in mods:
+                for x, y in ((m, deep), (deep, m)):
+                    try:
+                        results = G.apply_binary_rules(x, y)
+                    except Exception:       # noqa (totality is C14's business)
+                        continue
+                    for r in results:
+                        key = (r.op_string, r.op_symbol, k)
+                        if key in seen_labels:
+                            continue
+                        seen_labels.add(key)
+                        tok = (lambda w_: T.en_token(w_, rng)) if which == 'en' else (lambda w_: T.ja_token(w_, rng))
+                        t = Tree.make_binary(r.cat, Tree.make_terminal(tok('w1'), x), Tree.make_terminal(tok('w2'), y), r.op_string, r.op_symbol, r.head_is_left)
+                        stats['labels'].add((which, r.op_string, r.op_symbol))
+                        check_all_formats(which, [[ScoredTree(t, -1.0)]], dict(case='deep categories', label=[r.op_string, r.op_symbol], arguments=k, lang=which))
+
+
 def label_coverage(which):
     """for every label the rule functions can return, one small derivation that carries it (built with the real rule functions)"""
     G = T.en if which == 'en' else T.ja
@@ -791,6 +827,7 @@ def main():
             check_all_formats(which, [[ScoredTree(t, -1.0)]], dict(label=list(key), lang=which))
             if key in reachable_labels(which)[0] or key in reachable_labels(which)[1]:
                 check_codecs(which, [[ScoredTree(copy.deepcopy(t), -1.0)]], True, dict(label=list(key), lang=which, tree_kind='label coverage'))
+        deep_probe(which)
         ph = T.placeholder()
         check_all_formats(which, [ph], dict(case='placeholder only', lang=which))
         some = T.random_derivation(which, rng)
